@@ -866,7 +866,7 @@ class Interp:
             self.trace.append(("struct", d, fs))
             return ("struct", d, fs)
         if k == "closure":
-            return ("closure", e, dict(env))
+            return ("closure", e, env)
         if k == "call":
             return self.ev_call(e, env)
         if k == "mcall":
@@ -1081,6 +1081,9 @@ class Interp:
 
     def opaque_arg(self, a):
         if a[0] == "closure":
+            captured_assigned = [k_ for k_ in self.assigned_locals(a[1].get("body")) if k_ in a[2]]
+            if captured_assigned:
+                raise Unanalysable("a closure that assigns captured variables %s is passed to a call the interpreter does not model" % [c.split("#")[0] for c in captured_assigned])
             ids = set()
 
             def rec(x):
@@ -1108,13 +1111,27 @@ class Interp:
         self.loopn += 1
         lid = "L%d" % self.loopn
         ev_ = ("tuple", [("idx", base, lid), ("elem", base, lid)]) if enumerated else ("elem", base, lid)
+        live = clo[2]
+        assigned = [k_ for k_ in self.assigned_locals(ce["body"]) if k_ in live]
+        for k_ in assigned:
+            if live[k_][0] in SEQ:
+                raise Unanalysable("closure mutates a captured sequence")
+            cenv[k_] = ("acc", k_, lid)
         for p in ce["params"]:
             self.bind(p, ev_, cenv)
         try:
             t = self.exec_expr_tree(ce["body"], cenv)
-            return ("lambda", lid, self.collapse_value(t))
+            val = self.collapse_value(t)
+            cenv2 = self.collapse_env(t, allowed=("fall", "ret"))
         except Unanalysable:
+            if assigned:
+                raise
             return ("lambda", lid, ("?",))
+        for k_ in assigned:
+            step = cenv2.get(k_, ("acc", k_, lid))
+            if step != ("acc", k_, lid):
+                live[k_] = ("fold", live[k_], base, lid, step)
+        return ("lambda", lid, val)
 
 
 # ----------------------------------------------------------------------------------------
